@@ -19,7 +19,14 @@ RULE = ("for every concrete class a valid document (to_etree of a generated inst
         "vendor-prefixed (INTU.xxx) leaf and aggregate, a second YIELD/FROM for the classes that rename the first; "
         "1–3 insertions per document; non-trivial and distinct by (class, document, insertion kind, position)")
 
-UNKNOWN_TAGS = ["XYZZY", "FOO", "NEWFIELD2", "X_1"]
+UNKNOWN_TAGS = ["XYZZY", "FOO", "NEWFIELD2", "X_1",
+                # names that ARE attributes of every model class / of list, though never declared children: a reader
+                # that asks the class instead of its spec meets them
+                "INDEX", "COUNT", "COPY", "SORT", "SPEC", "APPEND", "EXTEND", "POP", "REMOVE", "REVERSE", "CLEAR",
+                "INSERT", "ELEMENTS", "SUBAGGREGATES", "UNSUPPORTED", "LISTAGGREGATES", "LISTELEMENTS", "GROOM",
+                "UNGROOM", "VALIDATE_ARGS", "FROM_ETREE", "TO_ETREE", "OPTIONALMUTEXES", "REQUIREDMUTEXES",
+                # tags of other classes
+                "STATUS", "SONRS", "CURRENCY", "BANKACCTFROM", "STMTTRN", "OFX"]
 
 
 def insertions(gen, rng, tree, by_name):
